@@ -114,6 +114,12 @@ func c05Run(c *mc.Ctx) {
 			writerBFS(c, "C05", WriterCfg{Kind: "default", Sizes: []int{1, 4097}, Reverse: rev, Warm: warm}, 3)
 			writerBFS(c, "C05", WriterCfg{Kind: "bytes", InitLen: 3, InitCap: 8, Sizes: []int{1, 4097}, Reverse: rev, Warm: warm}, 3)
 		}
+		// a sink that also offers WriteString / ReadFrom
+		for _, k := range []int{0, 2} {
+			if c.Mine() {
+				writerBFS(c, "C05", WriterCfg{Kind: "default", FailAt: k, SinkMode: k, RichSink: true, Sizes: []int{1, 4095, 4097}, Reverse: rev}, depth)
+			}
+		}
 		// regions and payloads beyond 1 MiB / 2 MiB
 		if c.Mine() {
 			writerBFS(c, "C05", WriterCfg{Kind: "default", Sizes: []int{5, 1<<20 + 1, 1 << 21}, Reverse: rev}, 3)
